@@ -9,19 +9,21 @@ using tbox::util::Buffer;
 
 struct Op { int k, a; };
 static const char *kNames[] = {"appX","appY","rsvX","rsv1X","fetchX","readX","readAllX","shrinkX","X=Y","X=mvY","swap","resetX",
-                               "cpctor","Y=X","fetchY","X=X","mvctor","shrinkY","readY","overWrittenX"};
-enum { APPX, APPY, RSVX, RSV1X, FETCHX, READX, READALLX, SHRINKX, XEQY, XMVY, SWAP, RESETX, CPCTOR, YEQX, FETCHY, XEQX, MVCTOR, SHRINKY, READY, OVERW, NK };
+                               "cpctor","Y=X","fetchY","X=X","mvctor","shrinkY","readY","overWrittenX","reserveHugeX","reserveOnlyX"};
+enum { APPX, APPY, RSVX, RSV1X, FETCHX, READX, READALLX, SHRINKX, XEQY, XMVY, SWAP, RESETX, CPCTOR, YEQX, FETCHY, XEQX, MVCTOR, SHRINKY, READY, OVERW, RSVHUGE, RSVONLY, NK };
 static const int sizes_small[] = {0, 1, 2, 3, 5};
-static const int sizes_big[] = {0, 1, 100, 255, 256, 257, 600};       // lane "big": default-constructed buffers (kInitialSize = 256)
+static const int sizes_big[] = {0, 1, 100, 255, 256, 257, 600};
+static const int sizes_huge[] = {0, 1, 65535, 65536, 65537};         // lane "huge": sizes around 2^16       // lane "big": default-constructed buffers (kInitialSize = 256)
 static const int HUGE_ = -2;                                           // stands for (size_t)-1 in consume / commit requests
 
 int main(int argc, char **argv) {
-  bool big = argc > 1 && !strcmp(argv[1], "big");
+  bool big = argc > 1 && !strcmp(argv[1], "big"), huge = argc > 1 && !strcmp(argv[1], "huge"); if (huge) big = true;     // huge = big lane with sizes around 2^16
   size_t cap = argc > 1 ? atoi(argv[1]) : 0; size_t depth = argc > 2 ? atoi(argv[2]) : 6; size_t maxlive = argc > 3 ? atoi(argv[3]) : 12;
   std::vector<int> sizes(big ? std::begin(sizes_big) : std::begin(sizes_small), big ? std::end(sizes_big) : std::end(sizes_small));
+  if (huge) sizes.assign(std::begin(sizes_huge), std::end(sizes_huge));
   hx::install_crash_reporter("C07-crash");
   hx::Explorer<Op> ex;
-  ex.name = big ? std::string("big") : "cap" + std::to_string(cap);
+  ex.name = huge ? std::string("huge") : big ? std::string("big") : "cap" + std::to_string(cap);
   ex.deadline_s = hx::deadline_from_env(600);
   ex.show = [](const Op &o) { char b[32]; snprintf(b, 32, "%s(%d)", kNames[o.k], o.a); return std::string(b); };
   ex.menu = [&](const std::vector<Op> &) {
@@ -30,6 +32,9 @@ int main(int argc, char **argv) {
     m.push_back({APPX, -1}); m.push_back({APPY, -1});       // exactly the free space
     m.push_back({READX, HUGE_}); m.push_back({READY, HUGE_});   // consume request of (size_t)-1: clamped like any over-long one
     for (int a : {1, 5, HUGE_}) m.push_back({OVERW, a});      // fill the free space, then commit that much + a: clamped to the free space
+    m.push_back({FETCHX, HUGE_}); m.push_back({FETCHY, HUGE_}); // fetch request of (size_t)-1 into a block of exactly the readable size
+    for (int a : {0, 1, 2}) m.push_back({RSVHUGE, a});         // reserve requests whose doubling cannot be represented: refused, nothing changes
+    for (int a : {1, 5}) m.push_back({RSVONLY, a});            // reserve without writing or committing anything
     for (int k : {READALLX, SHRINKX, XEQY, XMVY, SWAP, RESETX, CPCTOR, YEQX, XEQX, MVCTOR, SHRINKY}) m.push_back({k, 0});
     return m; };
   ex.run = [&](const std::vector<Op> &h, std::string &viol) {
@@ -41,11 +46,14 @@ int main(int argc, char **argv) {
       if (b.readableSize() != m.size()) { viol = std::string("size-mismatch ") + n; return; }
       for (size_t i = 0; i < m.size(); i++) if (b.readableBegin()[i] != m[i]) { viol = std::string("content-mismatch ") + n; return; } };
     auto app = [&](Buffer &b, std::deque<uint8_t> &m, int a) {
-      size_t n = a < 0 ? b.writableSize() : (size_t)a; if (m.size() + n > maxlive || n > sizeof tmp) return;
+      size_t n = a < 0 ? b.writableSize() : (size_t)a; if (m.size() + n > maxlive) return;
       std::unique_ptr<uint8_t[]> src(new uint8_t[n]);          // exact-size heap source: ASan sees a read past the n bytes given
       for (size_t i = 0; i < n; i++) { src[i] = next(); m.push_back(src[i]); }
       if (b.append(src.get(), n) != n) viol = "append-return"; };
     auto fetch = [&](Buffer &b, std::deque<uint8_t> &m, int a) {
+      if (a == HUGE_) { size_t have = m.size(); std::unique_ptr<uint8_t[]> d2(new uint8_t[have]);       // over-long request: clamped to what is readable
+        size_t n2 = b.fetch(d2.get(), (size_t)-1); if (n2 != have) { viol = "fetch-count"; return; }
+        for (size_t i = 0; i < n2; i++) { if (d2[i] != m.front()) viol = "fetch-content"; m.pop_front(); } return; }
       std::unique_ptr<uint8_t[]> dst(new uint8_t[a]);          // exact-size heap destination: ASan sees a write past the a bytes asked for
       memset(dst.get(), 0, a); size_t n = b.fetch(dst.get(), a); size_t e = std::min<size_t>(a, m.size());
       if (n != e) { viol = "fetch-count"; return; }
@@ -63,6 +71,11 @@ int main(int argc, char **argv) {
           if (X.writableSize() < r) { viol = "ensure-too-small"; break; }
           if (r > 0 && X.writableBegin() == nullptr) { viol = "writableBegin-null"; break; }
           for (size_t i = 0; i < n; i++) { uint8_t c = next(); X.writableBegin()[i] = c; mx.push_back(c); } X.hasWritten(n); } break;
+        case RSVHUGE: { static const size_t REQ[3] = {(size_t)-1, (size_t)-2, ((size_t)-1 >> 1) + 1};
+          size_t cap0 = X.buffer_size_, w0 = X.writableSize();
+          if (X.ensureWritableSize(REQ[o.a])) { viol = "reserve-of-unrepresentable-size-reported-as-satisfied"; break; }
+          if (X.buffer_size_ != cap0 || X.writableSize() != w0) { viol = "refused-reserve-changed-the-buffer"; break; } } break;
+        case RSVONLY: { if (!X.ensureWritableSize((size_t)o.a)) { viol = "ensure-false"; break; } if (X.writableSize() < (size_t)o.a) { viol = "ensure-too-small"; break; } } break;
         case OVERW: { size_t w = X.writableSize(); if (mx.size() + w > maxlive) break;       // over-long commit: clamped to what is writable
           for (size_t i = 0; i < w; i++) { uint8_t c = next(); X.writableBegin()[i] = c; mx.push_back(c); }
           X.hasWritten(o.a == HUGE_ ? (size_t)-1 : w + (size_t)o.a);
@@ -97,7 +110,7 @@ int main(int argc, char **argv) {
       if (X.write_index_ > X.buffer_size_ || X.read_index_ > X.write_index_ || Y.write_index_ > Y.buffer_size_ || Y.read_index_ > Y.write_index_) { viol = "index-invariant"; break; }
     }
     (void)wx; (void)rx; (void)wy; (void)ry;
-    char c[160]; snprintf(c, sizeof c, "%zu,%zu,%zu|%zu,%zu,%zu", X.buffer_size_, X.read_index_, X.write_index_, Y.buffer_size_, Y.read_index_, Y.write_index_);
+    char c[160]; snprintf(c, sizeof c, "%zu,%zu,%zu,%d|%zu,%zu,%zu,%d", X.buffer_size_, X.read_index_, X.write_index_, X.buffer_ptr_ != nullptr, Y.buffer_size_, Y.read_index_, Y.write_index_, Y.buffer_ptr_ != nullptr);
     return std::string(c);
   };
   ex.explore(depth);
